@@ -218,6 +218,8 @@ class Engine:
             return True
         if z3.is_false(cond):
             return False
+        if self.taint:
+            self._taint_branch(cond)
         idx = len(self.trace)
         if idx < len(self.prefix):
             d = self.prefix[idx]
@@ -566,7 +568,6 @@ class Engine:
                 r = (not r) if isinstance(r, bool) else z3.Not(r)
             return r
         # ordering
-        self.taint_use("ordering comparison on the symbolic weight", a, b)
         if self._isres(a) or self._isres(b):
             if not (self._isres(a) and self._isres(b)):
                 raise Unsupported("ordering between a result and a non-result")
@@ -624,6 +625,18 @@ class Engine:
             todo.extend(t.children())
         self._taint_cache[e.get_id()] = False
         return False
+
+    def _taint_branch(self, cond):
+        """a branch may test the weight for zero, but not order it (sympy cannot decide `Symbol > c`)"""
+        todo = [cond]
+        while todo:
+            t = todo.pop()
+            if z3.is_app(t) and t.decl().kind() in (z3.Z3_OP_LE, z3.Z3_OP_LT, z3.Z3_OP_GE, z3.Z3_OP_GT) and self.tainted(t):
+                where = self.call_stack[-1] if self.call_stack else "?"
+                self.taint_hits.append("branch on an ordering comparison of the symbolic weight in %s" % where)
+                return
+            if z3.is_app(t) and t.decl().kind() in (z3.Z3_OP_AND, z3.Z3_OP_OR, z3.Z3_OP_NOT, z3.Z3_OP_ITE, z3.Z3_OP_IMPLIES):
+                todo.extend(t.children())
 
     def taint_use(self, what, *vals):
         """record a use of a tainted value that is not a ring operation or a zero test"""
